@@ -19,7 +19,7 @@ RULE = ("exhaustive: every call sequence of length <= 5 (thorough tier: <= 6) ov
         "lifecycle reference model (iteration counter with the engine's float accumulation, completion "
         "flag, sticky completion, record list, progress 100 t/t_max, |n* - ceil(t_max/dt)| <= 1, outputs "
         "bit-identical to the clean-room trajectory, repeated get_output identical, finalize any number of "
-        "times then a set-up that behaves as in a fresh process). random: Hypothesis histories of length <= "
+        "times then a set-up that behaves as in a fresh process). termination: fixed-step runs (both engines, both space types, t_max = 0 / multiples / non-multiples / default, three unit systems) report completion exactly at the first step beyond t_max. random: Hypothesis histories of length <= "
         "40 over two engine objects of any kind (scripts incl. species totals below one molecule, empty "
         "states, t_max not a multiple of dt, run-to-completion loops): every call returns (hang bound), no "
         "crash, and every object returns exactly what the same calls return when that object is driven "
@@ -427,6 +427,50 @@ def _short(x):
     return s if len(s) < 160 else s[:160] + "..."
 
 
+# ---- termination of fixed-step runs -----------------------------------------------------------------------
+
+def strat_term(ctx):
+    return st.fixed_dictionaries({
+        "space": st.sampled_from(["grid", "graph"]), "kind": st.sampled_from(["euler", "tauleap"]), "cells": st.integers(1, 3),
+        "dt": st.sampled_from([0.125, 0.1, 0.03, 0.25, 1e-3]),      # numerically stable for the tiny system (rates ~ 1 / s)
+        "tmax_steps": st.sampled_from([0.0, 0.0, 1.0, 2.0, 5.0, 0.5, 3.25, 7.999, 12.0, 1e-9]),
+        "tmax_mode": st.sampled_from(["explicit", "explicit", "default"]),
+        "policy": st.sampled_from(["on_t_sample", "on_iteration", "on_interval", "no_sampling"]),
+        "units": st.sampled_from([dict(DEF_US), {"space": "µm", "time": "ms", "quantity": "molecule"}, {"space": "m", "time": "ms", "quantity": "mol"}]),
+        "seed": st.integers(0, 2 ** 32 - 1)})
+
+
+def check_term(ctx, c):
+    """A fixed-step run performs the steps n dt up to the first one beyond t_max, then reports completion,
+    i.e. after ceil(t_max/dt) steps give or take one -- whatever the space type, also for t_max = 0."""
+    vals = [40, 3, 9][:c["cells"]] + [0, 1, 2][:c["cells"]]
+    sc = {"sys": tiny_system(c["space"], c["cells"], vals), "route": "ctor", "units": c["units"],
+          "t_sample": [0.0, c["tmax_steps"] * c["dt"]] if c["tmax_mode"] == "default" else [0.0],
+          "time_step": c["dt"], "t_max": None if c["tmax_mode"] == "default" else c["tmax_steps"] * c["dt"],
+          "policy": c["policy"], "interval": c["dt"] * 2.5, "seed": c["seed"], "mode": "none"}
+    tmax = c["tmax_steps"] * c["dt"]
+    t, n_model = 0.0, 0
+    while True:
+        n_model += 1
+        t += c["dt"]
+        if t > tmax:
+            break
+    if abs(n_model - math.ceil(tmax / c["dt"])) > 1:
+        raise HarnessError("model n* %d vs ceil %d" % (n_model, math.ceil(tmax / c["dt"])))
+    ctx.note(c, True, ["termination:" + c["space"], "termination:" + c["kind"], "t_max=0" if tmax == 0 else "t_max>0", "t_max:" + c["tmax_mode"]])
+    cap = n_model + 3
+    calls = [["new", "E", c["kind"]], ["setup", "E", 0]] + [["iterate", "E"]] * cap + [["complete", "E"], ["finalize", "E"]]
+    res = run_job({"scripts": [sc], "calls": calls}, "termination run")
+    rets = [r["r"] for r in res[2:2 + cap]]
+    if True in rets[n_model - 1:] or rets[:n_model - 1] != [True] * (n_model - 1):
+        first = rets.index(False) + 1 if False in rets else None
+        raise Violation("%s on a %s, dt=%r, t_max=%r (%s): iterate() first reports completion after %s steps, expected %d = first step beyond t_max "
+                        "(ceil(t_max/dt) = %d)" % (c["kind"], c["space"], c["dt"], tmax, c["tmax_mode"], first if first else "> %d" % cap, n_model,
+                                                   math.ceil(tmax / c["dt"])), key="termination")
+    if res[2 + cap]["r"] is not True:
+        raise Violation("is_complete() is %r after the run completed" % res[2 + cap]["r"], key="termination:is_complete")
+
+
 # ---- known finding D14: engine objects share one native simulation --------------------------------------
 
 def probe_shared_simulation():
@@ -450,5 +494,6 @@ KNOWN_MATCHERS = {"shared_native_simulation": lambda v: False}
 
 FACETS = [
     Facet("exhaustive", check_exhaustive, enumerate=enum_histories, shards=(16, 16), setup=setup, native=True, hang_is_violation=True),
+    Facet("termination", check_term, strategy=strat_term, examples=(400, 6000), shards=(4, 16), setup=setup, native=True),
     Facet("random", check_random, strategy=strat_random, examples=(320, 8000), shards=(16, 16), setup=setup, native=True, hang_is_violation=True),
 ]
